@@ -141,7 +141,8 @@ def value_token(rng, ty):
 
 
 def case_mix(rng, name):
-    return "".join(ch.upper() if rng.random() < 0.5 else ch.lower() for ch in name)
+    # ASCII letters only: the library compares with strcasecmp() in the "C" locale (and 'ÿ'.upper() is not latin-1)
+    return "".join((ch.upper() if rng.random() < 0.5 else ch.lower()) if ch.isascii() else ch for ch in name)
 
 
 TITLES = [b"t1", b"t2", b"alpha", b"Beta", b"with space", b"q\"t", b"b\\s", b"${T}", b"x|y", b"it's"]
